@@ -11,7 +11,7 @@ import (
 	"verifharness/semverops"
 )
 
-func exec(f []string) string {
+func execOp(f []string) string {
 	switch f[0] {
 	case "refcmp": // refcmp <eco> <astA> <astB>: the published algorithm, transcribed in Go
 		if len(f) != 4 {
@@ -257,7 +257,7 @@ func main() {
 	fw.Main(&fw.Prop{
 		ID:   "C02",
 		Rule: "per ecosystem (npm, cargo, go, nuget, gem, pypi, maven): syntax trees from a small-scope exhaustive enumeration plus a random generator sitting on the comparator branches; each tree gives its normal form and (half the time) an alternative spelling; ops: parse of every spelling, embed (parser output on the normal form vs the Lean embed), classify, and for ALL ordered pairs of accepted spellings cmp (library) and refcmp (reference algorithm on the trees; Go transcription vs Lean spec). Oracles: agree, accepts-normal-form, accepts-spelling. Distinct non-trivial = distinct ordered pairs of different trees, both accepted.",
-		Exec: exec, Run: run, Recheck: recheck, Classify: classify,
+		Exec: execOp, Run: run, Recheck: recheck, Classify: classify,
 		Gens: semvergen.Generators(),
 	})
 }
